@@ -241,9 +241,11 @@ def run_path(reg, c, ex, decisions, segment=0):
             for cl in c.clauses:
                 if cl.kind == 'ensures_raises':
                     m = exc_matches(it, exc, post.ev(cl.extra))
-                    st.oblige(c.target, cl.name, 'exc-post', z3.Implies(m, post.truth(post.ev(cl.node))))
+                    st.oblige(c.target, cl.name, 'exc-post', z3.Implies(m, post.truth(post.ev(cl.node))),
+                              where='exit by exception: %s' % (outcome[2] or 'code'))
                 elif cl.kind == 'on_any_exit':
-                    st.oblige(c.target, cl.name, 'post', post.truth(post.ev(cl.node)))
+                    st.oblige(c.target, cl.name, 'post', post.truth(post.ev(cl.node)),
+                              where='exit by exception: %s' % (outcome[2] or 'code'))
             res.outcome = 'raise'
         frame_obligations(it, fn.pre_heap, st.heap, locs, fn.pre_alloc, 'frame')
     except PathEnd as e:
